@@ -19,7 +19,7 @@ import (
 // A probe installed as the first global middleware snapshots the context at
 // entry of every request.
 
-var kindNames = []string{"store", "errors", "abort", "status-write", "replace-resp", "replace-req", "set-handlers", "dynamic", "dynamic2", "notfound", "notallowed", "panic", "redispatch", "nested", "copy", "mutate-params", "dynamic3", "delegate", "hijack", "mutate-novar", "novar", "keep-copy", "panic-status", "mutate-query", "query", "render-fail", "render-ok", "hijack2", "notallowed3", "flush", "mutate-static", "static", "json", "mounted-201", "mounted-404", "build-url"}
+var kindNames = []string{"store", "errors", "abort", "status-write", "replace-resp", "replace-req", "set-handlers", "dynamic", "dynamic2", "notfound", "notallowed", "panic", "redispatch", "nested", "copy", "mutate-params", "dynamic3", "delegate", "hijack", "mutate-novar", "novar", "keep-copy", "panic-status", "mutate-query", "query", "render-fail", "render-ok", "hijack2", "notallowed3", "flush", "mutate-static", "static", "json", "mounted-201", "mounted-404", "build-url", "jsonp-fail"}
 
 type kindReq struct {
 	method, path string
@@ -77,6 +77,8 @@ var kindReqs = map[string]kindReq{
 	"mounted-404": {"GET", "/mnt/zz"},
 	// a handler that builds the URL of a named route without arguments, shows it, and then decorates the URL value it got
 	"build-url": {"GET", "/bu"},
+	// a JSONP response whose value cannot be encoded (the "json" kind answers with JSONP as well)
+	"jsonp-fail": {"GET", "/jsonp-bad"},
 }
 
 // kindParams: the parameters a request for the path must find in its context at entry (the variables of its route)
@@ -341,7 +343,8 @@ func newKindRouter(cfg kindCfg) *kindRouter {
 		c.WriteString("bu:" + u.String())
 		u.RawQuery, u.Fragment, u.Host = "page=2", "top", "decorated.example"
 	})
-	get("/json", func(c *rux.Context) { c.JSON(200, rux.M{"a": 1, "list": []int{1, 2}}) })
+	get("/json", func(c *rux.Context) { c.JSONP(200, "cbOk", rux.M{"a": 1, "list": []int{1, 2}}) })
+	get("/jsonp-bad", func(c *rux.Context) { c.JSONP(200, "cbBad", make(chan int)) })
 	get("/copy", func(c *rux.Context) {
 		cp := c.Copy()
 		cp.Set("in-copy", 1)
